@@ -12,7 +12,12 @@ CONSTANTS
    PairClasses,     \* value classes used in pairs
    PairTails,       \* tail shapes used with pairs
    PatchClasses,    \* value classes used on /patch
-   LLTails          \* tail shapes used with the low-latency pair (chunkdur, ato)
+   LLTails,         \* tail shapes used with the low-latency pair (chunkdur, ato)
+   EarlyClasses,    \* value classes used singly at the instants around the stream start
+   EarlyPairClasses,\* value classes used in pairs at the instants around the stream start
+   EarlyTails,      \* tail shapes used at the instants around the stream start
+   TripleClasses,   \* value classes used in the selected triples
+   TripleTails      \* tail shapes used with the selected triples
 
 VARIABLE r
 
@@ -47,6 +52,25 @@ LivePairs ==
 LiveLL ==
    \E c1 \in SingleClasses, c2 \in SingleClasses, t \in LLTails :
       r = Req("plain", "livesim2", "GET", <<Part("chunkdur", c1), Part("ato", c2)>>, "known", t, "now_ok", "none")
+
+\* --- instants around the start of the stream (query = instant class): nothing / one segment / a few segments exist
+Instants == {"t_start", "t_first", "t_early"}
+LiveEarly ==
+   \/ \E t \in EarlyTails, q \in Instants : r = Req("plain", "livesim2", "GET", <<>>, "known", t, q, "none")
+   \/ \E k \in Keys, c \in EarlyClasses, t \in EarlyTails, q \in Instants :
+         r = Req("plain", "livesim2", "GET", <<Part(k, c)>>, "known", t, q, "none")
+   \/ \E i \in 1..NK, j \in 1..NK, c1 \in EarlyPairClasses, c2 \in EarlyPairClasses, t \in EarlyTails, q \in Instants :
+         /\ i < j
+         /\ r = Req("plain", "livesim2", "GET", <<Part(KeySeq[i], c1), Part(KeySeq[j], c2)>>, "known", t, q, "none")
+
+\* --- selected triples: parameters that interact through the timeline (start/stop/periods, start number and
+\*     status-code cycles, multi-period timelines), at a late and at an early instant
+TripleKeys == {<<"start", "stop", "periods">>, <<"start", "snr", "statuscode">>, <<"start", "periods", "segtimelinenr">>,
+               <<"start", "periods", "segtimeline">>, <<"stop", "periods", "segtimelinenr">>, <<"snr", "chunkdur", "ato">>}
+LiveTriple ==
+   \E ks \in TripleKeys, c1 \in TripleClasses, c2 \in TripleClasses, c3 \in TripleClasses, t \in TripleTails,
+      q \in {"now_ok", "t_early"} :
+         r = Req("plain", "livesim2", "GET", <<Part(ks[1], c1), Part(ks[2], c2), Part(ks[3], c3)>>, "known", t, q, "none")
 
 \* --- /livesim2 without parameters: every server configuration, method, query shape
 LiveQueries == {"now_ok", "now_none", "now_bad", "now_neg", "now_huge", "now_zero", "nowdate_ok", "nowdate_bad",
@@ -128,11 +152,11 @@ RcvReqs ==
 
 WithCtx(q) == q @@ [ctx |-> CtxOf(q.ep, q.tail, q.parts)]
 
-Init == LiveSingle \/ LivePairs \/ LiveLL \/ LiveBare \/ PatchReqs \/ UrlgenReqs \/ MiscReqs \/ LaurlReqs \/ ApiReqs \/ RcvReqs
+Init == LiveSingle \/ LivePairs \/ LiveLL \/ LiveEarly \/ LiveTriple \/ LiveBare \/ PatchReqs \/ UrlgenReqs \/ MiscReqs \/ LaurlReqs \/ ApiReqs \/ RcvReqs
 Next == UNCHANGED r
 Spec == Init /\ [][Next]_r
 
-TypeOK == /\ Len(r.parts) <= 2
+TypeOK == /\ Len(r.parts) <= 3
           /\ \A i \in DOMAIN r.parts : r.parts[i].k \in Keys /\ r.parts[i].c \in Classes
           /\ r.method \in {"GET", "HEAD", "POST", "PUT", "DELETE", "OPTIONS"}
           /\ r.asset \in {"known", "unknown", "none"}
